@@ -1,0 +1,1 @@
+//! Verification hooks: job (see verif/mod.rs).
